@@ -3,6 +3,8 @@
 package ingest
 
 import (
+	"errors"
+
 	"diagonal.works/b6"
 	"diagonal.works/b6/osm"
 	"diagonal.works/b6/verifrt"
@@ -278,4 +280,40 @@ func verifLemma_C29_ways() {
 	err = fs.Read(ReadOptions{SkipPoints: true, SkipRelations: true, Goroutines: 1}, emit, nil)
 	verifrt.Assert(err == nil, "read-succeeds")
 	verifrt.Assert(n == 3, "three-features")
+}
+
+// ---- C28: a callback error stops a sequential read and is reported (bounded shape) -----------
+// The OSM-backed feature source read with one goroutine from memory: one closed way, one
+// multipolygon relation over it and one other relation give four features (path, area of
+// the way, area of the multipolygon, relation). Whichever of the four callbacks fails
+// (k = 0..3; k = 4: none), Read returns an error exactly when a callback failed and the
+// callback is never invoked again after it failed.
+func verifLemma_C28_read_stops_at_failing_callback(k int) {
+	verifrt.Assume(0 <= k && k <= 4)
+	src := &MemoryOSMSource{
+		Ways: []osm.Way{{ID: 5, Nodes: []osm.NodeID{1, 2, 3, 1}}},
+		Relations: []osm.Relation{
+			{ID: 7, Tags: osm.Tags{{Key: "type", Value: "multipolygon"}}, Members: []osm.Member{{Type: osm.ElementTypeWay, ID: 5, Role: "outer"}}},
+			{ID: 8, Members: []osm.Member{{Type: osm.ElementTypeNode, ID: 1}}},
+		},
+	}
+	fs, err := NewFeatureSourceFromPBF(src, &BuildOptions{Cores: 1}, nil)
+	verifrt.Assert(err == nil, "source-built")
+	broken := errors.New("broken")
+	calls := 0
+	emit := func(f Feature, g int) error {
+		calls++
+		if calls == k+1 {
+			return broken
+		}
+		return nil
+	}
+	err = fs.Read(ReadOptions{SkipPoints: true, Goroutines: 1}, emit, nil)
+	if k < 4 {
+		verifrt.Assert(err != nil, "the-callback-error-is-reported")
+		verifrt.Assert(calls == k+1, "no-callback-after-the-failing-one")
+	} else {
+		verifrt.Assert(err == nil, "success-when-no-callback-fails")
+		verifrt.Assert(calls == 4, "four-features")
+	}
 }
